@@ -142,7 +142,7 @@ func (m *C07) AfterTx(e *eng.Engine, t *eng.TxRec) {
 				viol("max-fee-denom", fmt.Sprintf("orders[%d]: max fee in %s for a market in %s", i, o.MaxFeeAmount.Denom, mk.BankDenom))
 			}
 		}
-		if maxFee.Cmp(ref.Trunc(buyerFee)) < 0 && !inexact {
+		if maxFee.Cmp(ref.Trunc(buyerFee)) < 0 {
 			viol("max-fee", fmt.Sprintf("orders[%d]: max fee %s < buyer fee %s rounded down", i, maxFee, rs(buyerFee)))
 		}
 		seller := obs.Addr(so.Seller)
